@@ -415,4 +415,91 @@ theorem compact_valid (escape : Bool) (src out : Bytes) (h : compact escape src 
     obtain ⟨c, t, hct, hws⟩ := hacc.head rfl
     exact ⟨isVal_of_isJson E (isJsonD_isJson _ _ hj) c t hct hws hacc.last, hj⟩
 
+
+/-! ### `compact` succeeds exactly on the documents the scanner accepts -/
+
+@[simp] theorem pre1_stop (src : Bytes) (escape : Bool) (st : CompactSt) (i : Nat) (c : UInt8) :
+    (pre1 src escape st i c).stop = st.stop := by
+  unfold pre1; split <;> simp
+@[simp] theorem pre2_stop (src : Bytes) (escape : Bool) (st : CompactSt) (i : Nat) (c : UInt8) (next : Bytes) :
+    (pre2 src escape st i c next).stop = st.stop := by
+  unfold pre2; repeat' split
+  all_goals simp
+
+theorem post_stop (src : Bytes) (st : CompactSt) (i : Nat) (sc : Scanner) (v : Op) (h : st.stop = false) :
+    (post src st i sc v).stop = (v == .error) := by
+  unfold post
+  cases v <;> simp [Op.geSkipSpace, h]
+
+theorem compactLoop_scan (src : Bytes) (escape : Bool) : ∀ (rest : Bytes) (st : CompactSt) (i : Nat),
+    i + rest.length ≤ src.length → WF st.scan → st.stop = false →
+    ∃ st', compactLoop src escape st i rest = .ok st' ∧ WF st'.scan ∧
+      ((st'.scan.err = false ∧ ∃ s'' op, eof st'.scan = .ok (s'', op) ∧ op ≠ .error) ↔ resid st.scan rest = true)
+  | [], st, i, _, hw, _ => by
+    refine ⟨st, rfl, hw, ?_⟩
+    obtain ⟨s2, op2, he2, hr⟩ := eof_resid st.scan hw
+    constructor
+    · rintro ⟨_, s'', op, he, hop⟩
+      rw [he] at he2; injection he2 with he2; injection he2 with _ h2; subst h2
+      rw [← hr]; simpa using hop
+    · intro h
+      have hop : op2 ≠ .error := by rw [← hr] at h; simpa using h
+      exact ⟨eof_err_false _ _ _ he2 hop, s2, op2, he2, hop⟩
+  | c :: rest, st, i, hlen, hw, hstop => by
+    simp only [List.length_cons] at hlen
+    unfold compactLoop
+    rw [compactIter_eq src escape st i c rest (by omega)]
+    obtain ⟨sc, v, e, hwsc, hop, hv⟩ := step_resid st.scan c rest hw
+    rw [e]
+    simp only []
+    generalize hst1 : post src (pre2 src escape (pre1 src escape st i c) i c rest) i sc v = st1
+    have hsc1 : st1.scan = sc := by rw [← hst1]; simp
+    have hstop1 : st1.stop = (v == .error) := by
+      rw [← hst1]; exact post_stop _ _ _ _ _ (by simp [hstop])
+    by_cases hve : v = .error
+    · subst hve
+      rw [if_pos (by rw [hstop1]; rfl)]
+      refine ⟨st1, rfl, by rw [hsc1]; exact hwsc, ?_⟩
+      have herr : sc.err = true := hwsc.err.mpr (hop rfl)
+      constructor
+      · rintro ⟨h, _⟩; rw [hsc1, herr] at h; cases h
+      · intro h; rw [hv] at h; simp [resid, hop rfl] at h
+    · have : (v == Op.error) = false := by simpa using hve
+      rw [if_neg (by rw [hstop1, this]; simp)]
+      obtain ⟨st', e', hw', hiff⟩ := compactLoop_scan src escape rest st1 (i + 1) (by omega)
+        (by rw [hsc1]; exact hwsc) (by rw [hstop1, this])
+      refine ⟨st', e', hw', ?_⟩
+      rw [hv, ← hsc1]; exact hiff
+
+/-- `compact` returns bytes exactly when `valid` accepts the input -/
+theorem compact_some_iff (escape : Bool) (src : Bytes) :
+    (∃ out, compact escape src = .ok (some out)) ↔ valid src = .ok true := by
+  obtain ⟨st', e', hw', hiff⟩ := compactLoop_scan src escape src { scan := Scanner.new, out := [], start := 0 } 0
+    (by simp) wf_new rfl
+  have hval : valid src = .ok (resid Scanner.new src) := checkLoop_resid src Scanner.new wf_new
+  obtain ⟨s'', op, he, _⟩ := eof_resid st'.scan hw'
+  constructor
+  · rintro ⟨out, h⟩
+    unfold compact at h
+    simp only [e', Res.bind_ok, he] at h
+    by_cases hop : op = .error
+    · subst hop; simp at h
+    · rw [hval, hiff.mp ⟨eof_err_false _ _ _ he hop, s'', op, he, hop⟩]
+  · intro h
+    rw [hval] at h; injection h with h
+    obtain ⟨_, s2, op2, he2, hop2⟩ := hiff.mpr h
+    rcases compact_spec escape src with h0 | ⟨E, hE, _⟩
+    · exfalso
+      unfold compact at h0
+      simp only [e', Res.bind_ok, he2] at h0
+      have : (op2 == Op.error) = false := by simpa using hop2
+      simp only [this, Bool.false_eq_true, if_false] at h0
+      split at h0
+      · cases hsl : slice src st'.start src.length with
+        | ok p => rw [hsl] at h0; simp at h0
+        | err e => rw [hsl] at h0; simp at h0
+        | panic m => rw [hsl] at h0; simp at h0
+      · simp at h0
+    · exact ⟨E, hE⟩
+
 end UgoVerif.Proofs.Json
